@@ -180,7 +180,7 @@ def handle (st : DState) (req : Sexp) : Except String (DState × Sexp) :=
       let cfg : Tracer.Cfg := { admits := fun c => adm.contains c, resolve := fun c => res.lookup c,
                                 rate := (match rate with | .atom "none" => none | r => (natOf r).toOption) }
       let s := Tracer.run cfg (← draws.mapM natOf) (← evs.mapM evOf)
-      .ok (st, .list [.list (s.log.map sexpOfPTrace), .atom (toString s.traces.length), .atom (toString s.draws.length)])
+      .ok (st, .list [.list (s.log.map (fun x => sexpOfPTrace x.2)), .atom (toString s.traces.length), .atom (toString s.draws.length)])
   | .list [.atom "trig", r, t] => do
       .ok (st, sexpOfBool ((← tyOf t).trig (← rwOf r)))
   | .list [.atom "normal", t] => do
